@@ -301,15 +301,16 @@ def observed_lengths(model):
 
 
 # --------------------------------------------------------------------------- binding B
-def random_chemistry(rng, n, X):
+def random_chemistry(rng, n, X, want=None):
     """-> (chemistry, declared table).  The declared table is what the USER handed over per layer:
     decl = dict(kind, names (declared gases, column order), table[layer][column]); its entries are
     pairwise distinct (random reals), so every misalignment (shift, reversal, transposition of a
     square table) changes it."""
-    if rng.random() < 0.45:
+    r0, r1 = rng.random(), rng.random()
+    if want in ('file', 'file-square') or (want is None and r0 < 0.45):
         # file chemistry: one row per layer (surface first), one column per gas; square case
         # (as many gases as layers) forced for about half of the small grids
-        ngas = n if (2 <= n <= 6 and rng.random() < 0.55) else rng.randint(2, 6)
+        ngas = n if (2 <= n <= 6 and (r1 < 0.55 or want == 'file-square')) else rng.randint(2, 6)
         names = ['H2O'] + rng.sample(GAS_POOL, ngas - 1)
         rng.shuffle(names)
         table = []
@@ -343,8 +344,18 @@ def random_chemistry(rng, n, X):
 MODEL_KINDS = ['transmission-old-path', 'transmission-new-path', 'emission']
 
 
-def random_model(rng, n, pkind, X):
-    """-> (model, declared, label).  pkind: 'simple' | 'array' | 'history' | 'evaluated'.
+FORCED = [(3, 'simple', dict(chem='file-square')), (2, 'array', dict(chem='file-square', klass='array', orient='top_first')),
+          (5, 'evaluated', dict(chem='file-square', mkind='transmission-new-path')),
+          (4, 'evaluated', dict(chem='taurex', mkind='emission')), (6, 'evaluated', dict(chem='file', mkind='transmission-old-path')),
+          (1, 'evaluated', dict(mkind='transmission-new-path')), (7, 'simple', dict(unit='km', chem='taurex')),
+          (8, 'simple', dict(unit='cm', chem='file')), (9, 'history', dict(unit='Rjup')),
+          (4, 'array', dict(klass='array', orient='surface_first')), (5, 'array', dict(klass='file', orient='surface_first')),
+          (3, 'array', dict(klass='file', orient='top_first'))]
+
+
+def random_model(rng, n, pkind, X, force=None):
+    """-> (model, declared, label).  `force` pins some of the random choices (input classes that every
+    run must contain).  pkind: 'simple' | 'array' | 'history' | 'evaluated'.
     declared: what the spec is told about the case: pmax/pmin (simple: the CURRENT settings) or
     input/reverse (array and file profiles), the planet, the chemistry table and the length unit of
     the second route.  'history' is a simple-grid model whose planet and pressure settings are
@@ -373,12 +384,13 @@ def random_model(rng, n, pkind, X):
         return dict(radius=radius_m / C.RJUP, mass=mass_kg / C.MJUP, lmax=lmax, lmin=lmin)
     cfg = draw()
     planet = X['Planet'](planet_mass=cfg['mass'], planet_radius=cfg['radius'])
-    chem, decl = random_chemistry(rng, n, X)
+    force = force or {}
+    chem, decl = random_chemistry(rng, n, X, force.get('chem'))
     tp = X['TemperatureArray'](tp_array=T)
     lmax, lmin = cfg['lmax'], cfg['lmin']
     grid = 'array' if (pkind == 'array' or (pkind == 'evaluated' and n >= 2 and rng.random() < 0.35)) else 'simple'
     declared = dict(input=[], reverse=False, radius=cfg['radius'], mass=cfg['mass'],   # the settings as the user made them
-                    grid=grid, chem=decl, unit=rng.choice(UNITS))
+                    grid=grid, chem=decl, unit=force.get('unit') or rng.choice(UNITS))
     if grid == 'simple':
         pp = X['SimplePressureProfile'](n, 10.0 ** lmin, 10.0 ** lmax)
         declared.update(pmax=10.0 ** lmax, pmin=10.0 ** lmin)
@@ -393,13 +405,18 @@ def random_model(rng, n, pkind, X):
             lp.append(lp[-1] - st * (lmax - lmin) / tot)
         lay = [10.0 ** e for e in lp]                       # surface first
         opt = dict(orient='top_first', reverse=True) if rng.random() < 0.5 else dict(orient='surface_first', reverse=False)
+        if force.get('orient'):
+            opt = dict(orient=force['orient'], reverse=(force['orient'] == 'top_first'))
         given = lay[::-1] if opt['orient'] == 'top_first' else lay
         klass = 'file' if rng.random() < 0.4 else 'array'
+        klass = force.get('klass') or klass
         unit = rng.choice(FILE_UNITS)
         pp = array_profile(X, klass, given, opt['reverse'], unit=unit, layout=rng.choice(FILE_LAYOUTS), tag='rnd')
         declared.update(input=given, reverse=opt['reverse'])
         label = option_label(klass, opt, unit)
     mkind = rng.choice(MODEL_KINDS) if pkind == 'evaluated' else 'transmission-old-path'
+    if pkind == 'evaluated' and force.get('mkind'):
+        mkind = force['mkind']
     common = dict(planet=planet, star=X['BlackbodyStar'](), pressure_profile=pp, temperature_profile=tp, chemistry=chem)
     if mkind == 'emission':
         model = X['EmissionModel'](ngauss=rng.choice([2, 4]), **common)
@@ -569,7 +586,7 @@ def float_step_ok(v, route='model'):
 
 
 def layer_counts(rng, q):
-    base = [1, 1, 2, 2, 3, 5, 10, 30, 100, 200]
+    base = [1, 2, 2, 3, 10, 30, 100, 200]
     extra = [rng.randint(1, 200) for _ in range(18 if q else 450)]
     small = [rng.randint(1, 12) for _ in range(12 if q else 250)]
     return base + extra + small
@@ -592,36 +609,38 @@ def run_traces(ctx, X):
     rng = random.Random(ctx.seed * 104729 + 11)
     events, meta, labels = [], {}, {}
     nmodels = 0
+    cases = [(n, pkind, force) for n, pkind, force in FORCED]
     for n in layer_counts(rng, q):
         kinds = ['simple'] if n < 2 else (['simple', 'array'] if rng.random() < 0.6 else [rng.choice(['simple', 'array'])])
         if rng.random() < 0.35:
             kinds.append('history')
         if rng.random() < 0.4:
             kinds.append('evaluated')
-        for pkind in kinds:
-            sub = rng.getrandbits(48)
-            model, declared, label = random_model(random.Random(sub), n, pkind, X)
-            # no case is dropped because of what the code produced: the inputs are inside the quantifier
-            # by construction (min < max; array / file layers decreasing in the declared orientation)
-            mid = 'm%d' % nmodels
-            nmodels += 1
-            ev, floats = events_of(model, mid, pkind, declared, X)
-            steps = [e for e in ev if e['ev'] == 'step']
-            recipe = dict(trace=True, sub=sub, n=n, pkind=pkind, mid=mid)
-            if declared.get('raised'):
-                # an evaluation entry point raised on an input inside the quantifier (reported like the
-                # framework reports any exception of the implementation); the structure is judged all the same
-                ctx.verdict('implementation_raised', False, cls=declared['raised'], detail='%s (n=%d)' % (label, n), vector=recipe)
-            for e, f in zip(steps, floats):
-                meta[e['id']] = (label, n, f, recipe)
-            for e in ev:
-                if e['ev'] != 'step':
-                    meta[e['id']] = (label, n, None, recipe)
-            events += ev
-            short = 'simple:after-history' if pkind == 'history' else (':'.join(label.split(':after-evaluation:')[0:1] + ['after-evaluation', label.split(':after-evaluation:')[1].split(':')[0]]) if pkind == 'evaluated' else label)
-            labels[short] = labels.get(short, 0) + 1
-            for extra in ('chem:' + declared['chem']['kind'].split(':ngas')[0], 'route-unit:' + declared['unit']):
-                labels[extra] = labels.get(extra, 0) + 1
+        cases += [(n, pkind, None) for pkind in kinds]
+    for n, pkind, force in cases:
+        sub = rng.getrandbits(48)
+        model, declared, label = random_model(random.Random(sub), n, pkind, X, force)
+        # no case is dropped because of what the code produced: the inputs are inside the quantifier
+        # by construction (min < max; array / file layers decreasing in the declared orientation)
+        mid = 'm%d' % nmodels
+        nmodels += 1
+        ev, floats = events_of(model, mid, pkind, declared, X)
+        steps = [e for e in ev if e['ev'] == 'step']
+        recipe = dict(trace=True, sub=sub, n=n, pkind=pkind, mid=mid, force=force)
+        if declared.get('raised'):
+            # an evaluation entry point raised on an input inside the quantifier (reported like the
+            # framework reports any exception of the implementation); the structure is judged all the same
+            ctx.verdict('implementation_raised', False, cls=declared['raised'], detail='%s (n=%d)' % (label, n), vector=recipe)
+        for e, f in zip(steps, floats):
+            meta[e['id']] = (label, n, f, recipe)
+        for e in ev:
+            if e['ev'] != 'step':
+                meta[e['id']] = (label, n, None, recipe)
+        events += ev
+        short = 'simple:after-history' if pkind == 'history' else (':'.join(label.split(':after-evaluation:')[0:1] + ['after-evaluation', label.split(':after-evaluation:')[1].split(':')[0]]) if pkind == 'evaluated' else label)
+        labels[short] = labels.get(short, 0) + 1
+        for extra in ('chem:' + declared['chem']['kind'].split(':ngas')[0], 'route-unit:' + declared['unit']):
+            labels[extra] = labels.get(extra, 0) + 1
     if nmodels < 20:
         raise Machinery('too few models generated')
     nbad_total = 0
@@ -929,7 +948,7 @@ def _replay(ctx, violations, X):
             continue
         key = (vec['sub'], vec['n'], vec['pkind'])
         if key not in models:
-            model, declared, _ = random_model(random.Random(vec['sub']), vec['n'], vec['pkind'], X)
+            model, declared, _ = random_model(random.Random(vec['sub']), vec['n'], vec['pkind'], X, vec.get('force'))
             ev, floats = events_of(model, vec['mid'], vec['pkind'], declared, X)
             fl = dict(zip([e['id'] for e in ev if e['ev'] == 'step'], floats))
             models[key] = ({e['id']: e for e in ev}, fl)
